@@ -173,6 +173,7 @@ func TestPerValueCap(t *testing.T) {
 		}()
 		nextID := 0
 		maxDistinctLive, diffArity := 0, false
+		splitArgs := rapid.Bool().Draw(t, "argumentsInSeveralOptions")
 		sharedAtt, viaSharedMap := map[interface{}]interface{}{}, rapid.Bool().Draw(t, "callerReusesOneAttachmentMap")
 		enter := func(res string, args []interface{}, att map[interface{}]interface{}) {
 			expBlock := ""
@@ -192,7 +193,9 @@ func TestPerValueCap(t *testing.T) {
 				}
 			}
 			var opts []sentinel.EntryOption
-			if len(args) > 0 {
+			if len(args) > 1 && splitArgs { // the positional arguments arrive in several WithArgs options (they accumulate)
+				opts = append(opts, sentinel.WithArgs(args[0]), sentinel.WithArgs(args[1:]...))
+			} else if len(args) > 0 {
 				opts = append(opts, sentinel.WithArgs(args...))
 			}
 			if len(att) > 0 && viaSharedMap {
